@@ -56,6 +56,25 @@ func genCfg(rnd *rand.Rand, focus string) runCfg {
 	}
 	nk := 2 + rnd.Intn(4)
 	seen := map[int]bool{}
+	if strings.HasPrefix(lc.Kind, "T") {
+		lc.Reuse = rnd.Intn(4) != 0
+	}
+	if lc.Kind == "KeyLocker" && rnd.Intn(4) != 0 {
+		// boundary key values of an interface{} key; the untyped nil is in most of these universes
+		lc.KeyTy = "boundary"
+		if rnd.Intn(5) != 0 {
+			seen[0] = true
+			lc.Seeds = append(lc.Seeds, 0)
+		}
+		for len(lc.Seeds) < nk {
+			s := rnd.Intn(len(boundaryPool))
+			if !seen[s] {
+				seen[s] = true
+				lc.Seeds = append(lc.Seeds, s)
+			}
+		}
+		rnd.Shuffle(len(lc.Seeds), func(i, j int) { lc.Seeds[i], lc.Seeds[j] = lc.Seeds[j], lc.Seeds[i] })
+	}
 	for len(lc.Seeds) < nk {
 		var s int
 		switch rnd.Intn(4) {
@@ -230,6 +249,7 @@ func emitRun(e *vh.Env, c runCfg, l lockerAPI, rounds []roundT, note string, cla
 	desc := map[string]interface{}{
 		"locker": c.L.class(), "key_type": c.L.KeyTy, "shards": c.L.Shards, "keys": c.L.keyDesc(), "shard_of_key": shard,
 		"threads": c.NT, "ordered_lists": c.Ordered, "rounds": rounds, "max_candidate_states": maxStates,
+		"reused_buffers": c.L.Reuse,
 	}
 	if note != "" {
 		desc["note"] = note
@@ -290,6 +310,12 @@ func main() {
 		// rest of the process and every later stop-the-world snapshot pays for them.  Thirty such runs validate
 		// the model's deadlocks; after the cap only ordered lists are generated (same random stream).
 		const deadlockCap = 30
+		// A run on ORDERED lists that stops early (anomalous observation, blocked unlock/hook, deadlock) never happens on
+		// a correct locker; each one leaves goroutines parked for good and every later snapshot pays for them.  After
+		// divergentCap such runs the failing cases are in hand: generation stops (a diverging implementation must not
+		// make the check slow).
+		const divergentCap = 25
+		divergent := 0
 		for i := 0; i < n; i++ {
 			c := genCfg(e.Rnd, e.Focus)
 			if deadlocked >= deadlockCap {
@@ -308,19 +334,30 @@ func main() {
 			if strings.HasPrefix(note, "deadlock") {
 				deadlocked++
 			}
+			if note != "" && c.Ordered {
+				divergent++
+			}
 			rounds += len(rs)
 			polls += lastPolls
+			if divergent >= divergentCap {
+				break
+			}
 		}
 		// long multi-key lists on the sharded generic lockers (after the random walk: its random stream is unchanged)
 		nl := e.Scale(50, 200)
 		if e.Search && strings.HasSuffix(e.Focus, "/long-lists") {
 			nl = 600
 		}
+		if divergent >= divergentCap {
+			nl = 0
+			e.Meta["cut_short"] = "stopped generating after 25 ordered schedules that ended in an anomaly or deadlock"
+		}
 		lr, lm, ld := runLongLists(e, nl)
 		rounds += lr
 		mismatches += lm
 		deadlocked += ld
 		e.Meta["deadlocked_runs"] = deadlocked
+		e.Meta["sharded_interface_locker_nil_key"] = probeGrpNil()
 		e.Meta["rounds"] = rounds
 		e.Meta["stack_snapshots"] = polls
 		e.Meta["schedules_without_witness"] = mismatches
@@ -399,4 +436,20 @@ func exhaustive(e *vh.Env) {
 	}
 	e.Meta["exhaustive"] = true
 	e.Meta["space"] = fmt.Sprintf("all interleavings of call/unlock of 3 callers x 1 call each over 2 keys, all 56 multisets of (mode, key list) programs, TKeyLocker and 2-shard TKeyLockerGrp with reversed shard order: %d schedules", leaves)
+}
+
+// probeGrpNil records (advisory, no verdict) what the sharded interface-keyed locker does with the untyped nil key:
+// on the unchanged tree remap.ToBytes panics before any state is touched, which is why nil, typed nil pointers and
+// struct{}{} are used with the single KeyLocker only.
+func probeGrpNil() (res string) {
+	l := build(lockerCfg{Kind: "KeyLockerGrp", Route: "mod", KeyTy: "mixed", Shards: 3, Seeds: []int{0}}).(*iAd)
+	defer func() {
+		if r := recover(); r != nil {
+			res = fmt.Sprintf("Lock(nil) panics: %v; entries afterwards %d", r, l.Entries())
+		}
+	}()
+	l.l.Lock(nil)
+	res = fmt.Sprintf("Lock(nil) returned; entries %d", l.Entries())
+	l.l.Unlock(nil)
+	return
 }
